@@ -391,6 +391,24 @@ def extract_formatters(emit):
     if len(pats) != 1:
         raise ExtractError("FormatterGroup.format: placeholder pattern not found")
     emit(f"def group_format_re : List Char := {lean_str(pats[0])}")
+    # how FormatterGroup.parse merges the captures of several occurrences of one member: are the captures of every
+    # occurrence kept apart (key + "__" + occurrence), or merged under the bare key (where the counter of a directive
+    # repeated inside one occurrence collides with the suffix of the next occurrence)?  Read off the behaviour.
+    _G = F.make_group({"y": F.Serial})
+    try:
+        _G.parse("12 12 12 12", "{y:%n %n} {y:%n %n}")
+    except Exception as e:  # noqa: BLE001
+        raise ExtractError(f"FormatterGroup.parse: agreeing repeated occurrences are refused ({type(e).__name__})")
+    apart = []
+    for _t in ("12 13 12 12", "12 12 13 12"):
+        try:
+            _G.parse(_t, "{y:%n %n} {y:%n %n}")
+            apart.append(False)
+        except F.FormatterValueError:
+            apart.append(True)
+    if apart[0] != apart[1] and apart != [False, True]:
+        raise ExtractError(f"FormatterGroup.parse: merge of repeated occurrences has an unknown shape {apart}")
+    emit(f"def group_merge_apart : Bool := {'true' if all(apart) else 'false'}")
 
     # the five formatter classes ----------------------------------------------------------------
     emit_class_tables(emit, "serial", F.Serial, F.Serial())
